@@ -204,6 +204,8 @@ def def_sites(facts, f):
         if b.get("cleanup"):
             continue
         for st in b["stmts"]:
+            if not re.match(r"^_\d+$", st.get("l", "")):
+                continue   # a store through a projection ((*_1).f = ..) does not define the base local
             out.setdefault(st["ll"], []).append(("stmt", bi, st))
         t = b["term"]
         if t["k"] == "Call":
